@@ -242,10 +242,9 @@ func (tr *trans) unop(x *ssa.UnOp, st State) {
 	case token.ARROW:
 		// channel receive: arbitrary value / ok, recorded in a ghost history of the channel variable
 		tr.note("channel receives yield arbitrary values (no model of the sender); a ghost history records what was received")
-		cn := "recv." + x.X.Name()
 		et := x.X.Type().Underlying().(*types.Chan).Elem()
-		tr.stateSort[cn+".n"] = "Int"
-		tr.stateSort[cn+".at"] = "(Array Int " + tr.vc.sortOf(et) + ")"
+		cnN, cnAt := tr.recvVars(et)
+		ch := tr.val(x.X)
 		vn := q(x.Name() + ".v")
 		okn := q(x.Name() + ".ok")
 		tr.vc.declConst(vn, tr.vc.sortOf(et))
@@ -257,10 +256,11 @@ func (tr *trans) unop(x *ssa.UnOp, st State) {
 			// a plain receive from a closed channel yields the zero value; we do not distinguish
 			tr.vc.assume(okn)
 		}
-		n := tr.getState(st, cn+".n")
-		at := tr.getState(st, cn+".at")
-		tr.setState(st, cn+".at", ite(okn, store(at, n, vn), at))
-		tr.setState(st, cn+".n", ite(okn, app("+", n, "1"), n))
+		nAll := tr.getState(st, cnN)
+		atAll := tr.getState(st, cnAt)
+		n := sel(nAll, ch)
+		tr.setState(st, cnAt, ite(okn, store(atAll, ch, store(sel(atAll, ch), n, vn)), atAll))
+		tr.setState(st, cnN, ite(okn, store(nAll, ch, app("+", n, "1")), nAll))
 		if x.CommaOk {
 			tr.tuples[x] = []Term{vn, okn}
 			return
@@ -902,4 +902,13 @@ func exprToQualified(e Expr) string {
 		return exprToQualified(x.X) + "." + x.Name
 	}
 	return "?"
+}
+
+// recvVars: ghost receive histories, keyed by channel reference: count per channel and received values.
+func (tr *trans) recvVars(et types.Type) (string, string) {
+	n := "recv.n"
+	at := "recv.at." + typeKey(et)
+	tr.stateSort[n] = "(Array Int Int)"
+	tr.stateSort[at] = "(Array Int (Array Int " + tr.vc.sortOf(et) + "))"
+	return n, at
 }
